@@ -323,7 +323,7 @@ func validatePref(u gen.Universe) (obs, exp string, st prefStats, err error) {
 
 func prefProp(t *rapid.T) {
 	u := prefUniverse(t)
-	c := rootCase{u, [2]string{"g:p0", "1.0"}}
+	c := rootCase{Universe: u, Root: [2]string{"g:p0", "1.0"}}
 	rec.SetCase(c)
 	obs, exp, st, err := validatePref(u)
 	if err != nil {
